@@ -384,3 +384,87 @@ Proof.
   split; [unfold WF; cbn; lia|]. split; [reflexivity|]. split; [cbn; lia|]. split; [vm_compute; reflexivity|].
   eexists. split; [vm_compute; reflexivity|vm_compute; reflexivity].
 Qed.
+
+(** * query windows with negative, swapped or out-of-range bounds (contiguous views) *)
+
+(** the bounds after [x or default], the negative wrap and the swap *)
+Definition win_lo (n : Z) (ws we : option Z) : Z :=
+  let s := py_or ws 0 in let e := py_or we n in
+  let s := if s <? 0 then s + n else s in let e := if e <? 0 then e + n else e in Z.min s e.
+Definition win_hi (n : Z) (ws we : option Z) : Z :=
+  let s := py_or ws 0 in let e := py_or we n in
+  let s := if s <? 0 then s + n else s in let e := if e <? 0 then e + n else e in Z.max s e.
+
+Lemma query_window_unfold v ws we :
+  query_window v ws we =
+  bind (absolute_position v (win_lo (vlen v) ws we) false) (fun qs =>
+  bind (absolute_position v (win_hi (vlen v) ws we) true) (fun qe =>
+  let '(qs, qe) := if is_reversed v then (qe, qs) else (qs, qe) in Ok (Z.max qs 0, qe))).
+Proof.
+  unfold query_window, win_lo, win_hi. cbv zeta.
+  set (s := if py_or ws 0 <? 0 then _ else _). set (e := if py_or we (vlen v) <? 0 then _ else _).
+  destruct (s <? e) eqn:E.
+  - replace (Z.min s e) with s by lia. replace (Z.max s e) with e by lia. reflexivity.
+  - replace (Z.min s e) with e by lia. replace (Z.max s e) with s by lia. reflexivity.
+Qed.
+
+(** any pair of bounds - omitted, 0 (= omitted), negative (counted from the
+    end), in either order - that lands inside the view selects the absolute
+    segment of the displayed indices [lo, hi) ... *)
+Lemma query_window_any v ws we : contig v -> 0 < vlen v ->
+  0 <= win_lo (vlen v) ws we < vlen v -> win_hi (vlen v) ws we <= vlen v ->
+  query_window v ws we =
+    Ok (if is_reversed v
+        then (parent_stop v - win_hi (vlen v) ws we, parent_stop v - win_lo (vlen v) ws we)
+        else (parent_start v + win_lo (vlen v) ws we, parent_start v + win_hi (vlen v) ws we)).
+Proof.
+  intros Hc Hlen Hlo Hhi. rewrite query_window_unfold.
+  assert (Hle : win_lo (vlen v) ws we <= win_hi (vlen v) ws we) by (unfold win_lo, win_hi; cbv zeta; lia).
+  rewrite (abs_pos_contig v _ false Hc Hlen) by lia.
+  rewrite (abs_pos_contig v _ true Hc Hlen) by lia. cbn [bind].
+  destruct (contig_cases v Hc) as [(Es & Er & H1 & H2 & H3 & H4 & H5)|(Es & Er & H1 & H2 & H3 & H4 & H5)];
+    rewrite Er; destruct Hc as (_ & _ & Hoff); f_equal; f_equal; lia.
+Qed.
+
+(** ... and bounds that fall outside raise IndexError (an empty window at the
+    very end, [start = len], included) *)
+Lemma query_window_raises v ws we : contig v -> 0 < vlen v ->
+  win_lo (vlen v) ws we < 0 \/ vlen v <= win_lo (vlen v) ws we \/ vlen v < win_hi (vlen v) ws we ->
+  query_window v ws we = Err E_Index.
+Proof.
+  intros Hc Hlen H. rewrite query_window_unfold.
+  assert (Hle : win_lo (vlen v) ws we <= win_hi (vlen v) ws we) by (unfold win_lo, win_hi; cbv zeta; lia).
+  set (lo := win_lo (vlen v) ws we) in *. set (hi := win_hi (vlen v) ws we) in *.
+  destruct (Z_lt_le_dec lo 0) as [L0|L0].
+  { unfold absolute_position. replace (vlen v =? 0) with false by lia. replace (lo <? 0) with true by lia. reflexivity. }
+  destruct (Z_lt_le_dec lo (vlen v)) as [L1|L1].
+  - (* lo inside, hi beyond the end *)
+    assert (Hhi : vlen v < hi) by lia.
+    rewrite (abs_pos_contig v lo false Hc Hlen) by lia. cbn [bind].
+    unfold absolute_position, get_index. replace (vlen v =? 0) with false by lia. replace (hi <? 0) with false by lia.
+    replace ((hi >? 0) && true && (hi >? vlen v)) with true by lia. reflexivity.
+  - unfold absolute_position, get_index. replace (vlen v =? 0) with false by lia. replace (lo <? 0) with false by lia.
+    replace ((lo >? 0) && false && (lo >? vlen v)) with false by lia.
+    replace ((lo >? 0) && negb false && (lo >=? vlen v)) with true by lia. reflexivity.
+Qed.
+
+Lemma query_membership_any fx v db ws we partial l : contig v -> 0 < vlen v ->
+  let lo := win_lo (vlen v) ws we in let hi := win_hi (vlen v) ws we in
+  0 <= lo < hi -> hi <= vlen v -> Forall feat_ok db ->
+  get_features fx v db ws we partial = Ok l ->
+  forall k, In k (map fst l) <->
+    exists f, 0 <= k /\ nth_error db (Z.to_nat k) = Some f /\ box_matches partial (abs_window v lo hi) f.
+Proof.
+  intros Hc Hlen lo hi Hlo Hhi Hdb Hl k.
+  pose proof (query_window_any v ws we Hc Hlen ltac:(fold lo; lia) Hhi) as Hw. fold lo hi in Hw.
+  assert (Hw' : query_window v ws we = Ok (fst (abs_window v lo hi), snd (abs_window v lo hi))).
+  { rewrite Hw. unfold abs_window. destruct (is_reversed v); reflexivity. }
+  rewrite (get_features_member fx v db ws we partial _ _ l Hw' Hl k).
+  assert (Hq : fst (abs_window v lo hi) < snd (abs_window v lo hi)).
+  { unfold abs_window. destruct (is_reversed v); cbn; lia. }
+  split; intros (f & H0 & Hn & Hm); exists f; (split; [assumption|]); (split; [assumption|]).
+  - assert (Hf : feat_ok f) by (apply (proj1 (Forall_forall _ _) Hdb); eapply nth_error_In; eassumption).
+    apply (db_match_spec partial _ _ f Hf Hq) in Hm. unfold box_matches. destruct partial; exact Hm.
+  - assert (Hf : feat_ok f) by (apply (proj1 (Forall_forall _ _) Hdb); eapply nth_error_In; eassumption).
+    apply (db_match_spec partial _ _ f Hf Hq). unfold box_matches in Hm. destruct partial; exact Hm.
+Qed.
